@@ -41,6 +41,9 @@ func standaloneProduct(maxN int, visit func(idx int, sc *scen.Scenario, sig stri
 							}
 							ns.Visits = []scen.Visit{v}
 							sc := &scen.Scenario{Nodes: []scen.NodeSpec{ns}, Root: 0, Runs: 1}
+							if idx%11 == 7 {
+								sc.NilStore = true // "the very store given to the run" — also when that is a nil *SharedStore
+							}
 							sig := fmt.Sprintf("k%d n%d k%d fb%d p%d q%d", kind, n, k, fb, prep, post)
 							visit(idx, sc, sig)
 							idx++
@@ -70,6 +73,7 @@ func init() {
 
 func runC01(c *Cfg) {
 	r := c.Rep
+	runSpecial(c, "C01", "same-name-node-types")
 	// 1. exhaustive standalone product
 	var cases []*scen.Scenario
 	var sigs []string
@@ -228,6 +232,7 @@ func replaceDots(s string) string {
 
 func runC02(c *Cfg) {
 	r := c.Rep
+	runSpecial(c, "C02", "same-name-node-types")
 	var cases []*scen.Scenario
 	var sigs []string
 	standaloneProduct(8, func(idx int, sc *scen.Scenario, sig string) {
